@@ -2,7 +2,7 @@
 Accumulation contracts: Phreeqc::add_solution adds exactly factor x inventory (extensive for amounts, intensive for state
 variables), the mixing loop of add_mix calls it once per present component with the mix fraction, cxxNameDouble::add_extensive /
 multiply are pointwise, cxxSystem::totalize adds every present part.  Conservation across a solved step is NOT decided."""
-import time
+import time, re
 from vf import core
 from vf.core import Undecided, FAILED, DISCHARGED, UNDECIDED
 from vf.astvc import ast as A, terms as tm, unit as U, backends as B, stl as STLM
@@ -110,8 +110,61 @@ def unit_add_mix_loop(twin=False):
             U.discharge_eq_real(r, "present_solution.extensive_factor==mix_fraction", list(s.pc), ads[0].args[1], frac if not twin else frac * frac)
             okk = sp.op == "app" and sp.args[0] == "call:Rxn_find"
             r.add("present_solution.is_the_solution_numbered_by_the_mix_component", DISCHARGED if okk else FAILED, "term-inspection", 0, repr(sp)[:120])
-    r.add("reach.both", DISCHARGED if seen == {"missing", "present"} else UNDECIDED, "symex", 0, repr(sorted(seen)), kind="vacuity")
-    r.assumptions.append("the intensive weights (sum to one over the positive fractions) depend on the accumulators of the first loop and are not under this contract")
+        if ok:
+            # intensive weight = (fraction * water of that solution) / sum over the mixed solutions of the same product (all fractions
+            # positive), resp. over the positive ones for a positive fraction when some fraction is not positive
+            from props.common import cases as _cases, local as _local
+            mw = [e for e in evs if e.name.endswith("Get_mass_water") and e.recv is sp]
+            if not mw:
+                r.add("present_solution.weight_uses_that_solution's_water", FAILED, "trace", 0, ""); continue
+            W = mw[-1].result
+            size = [e for e in evs if e.name.endswith("size")]
+            allpos = tm.not_(tm.lt(_local(info, s, "count_positive"), tm.to_int(size[-1].result) if hasattr(tm, "to_int") and size else _local(info, s, "count_positive"))) if False else None
+            cp = _local(info, s, "count_positive")
+            hy0 = list(s.pc)
+            # the path condition already decides count_positive < size and fraction > 0 (the code branches on them)
+            some_nonpos = [p_ for p_ in hy0 if "count_positive" in repr(p_)]
+            posfrac = tm.lt(tm.num(0), frac)
+            sfw, spw = _local(info, s, "sum_fractions_water"), _local(info, s, "sum_positive_water")
+            neg_branch = any(p_.op != "not" and "count_positive" in repr(p_) and "<" in repr(p_) for p_ in hy0)
+            if not neg_branch:
+                U.discharge_eq_real(r, "all_positive.intensive_weight==fraction*water/sum(fraction*water)", hy0, ads[0].args[2], frac * W / (sfw if not twin else spw))
+                seen.add("allpos")
+            else:
+                for hy, pos in _cases(hy0, posfrac):
+                    if pos:
+                        U.discharge_eq_real(r, "some_not_positive.positive_fraction_weighted_over_the_positive_ones", hy, ads[0].args[2], frac * W / spw)
+                        seen.add("pos")
+    # first loop: the sums the weights are normalised with
+    fn1, ex1, it1, info1 = U.run_loop_isolated(STEP, "Phreeqc::add_mix", 0, ctx=ctx)
+    n1 = 0
+    for s in it1:
+        if s.status not in ("run", "cont"):
+            continue
+        from props.common import cases as _cases, local as _local, check_accumulator_init as _cai, loop_node as _ln
+        sp = U.local_of(info1, s, "solution_ptr"); it = U.local_of(info1, s, "it")
+        frac = tm.select(ex1.heap_arr(s, ("f", "second", "R")), tm.app("mnode", (it,), "P"))
+        I = lambda n, so="R": tm.sym("iter_" + n, so)
+        for hy, missing in _cases(list(s.pc), tm.eq(sp, tm.NULL)):
+            if missing:
+                keep = all(_local(info1, s, n) is I(n, so) for n, so in (("sum_fractions_water", "R"), ("sum_positive_water", "R"), ("count_positive", "I")))
+                r.add("sums.missing_solution_not_counted", DISCHARGED if keep else FAILED, "symex", 0, "", kind="frame")
+                continue
+            n1 += 1
+            mw = [e for e in U.iter_events(s) if e.name.endswith("Get_mass_water") and e.recv is sp]
+            if not mw:
+                r.add("sums.water_of_that_solution", FAILED, "trace", 0, ""); continue
+            W = mw[0].result
+            U.discharge_eq_real(r, "sums.sum_fractions_water+=fraction*water", hy, _local(info1, s, "sum_fractions_water"), I("sum_fractions_water") + frac * W)
+            for hy2, pos in _cases(hy, tm.lt(tm.num(0), frac)):
+                U.discharge_eq_real(r, "sums.sum_positive_water(%s)" % ("positive" if pos else "not_positive"), hy2, _local(info1, s, "sum_positive_water"), I("sum_positive_water") + (frac * W if pos else tm.num(0)))
+                U.discharge_valid(r, "sums.count_positive(%s)" % ("positive" if pos else "not_positive"), hy2, tm.eq(_local(info1, s, "count_positive"), I("count_positive", "I") + tm.num(1 if pos else 0, "I")))
+    from props.common import check_accumulator_init as _cai, loop_node as _ln
+    fnh = A.find_function(STEP, "Phreeqc::add_mix")
+    for nm in ("sum_fractions_water", "sum_positive_water", "count_positive"):      # sum_fractions / sum_positive only feed `intensive`, which is not handed on
+        _cai(r, fnh, STEP, _ln(fnh, 0), nm, "sums")
+    r.add("reach.both", DISCHARGED if {"missing", "present", "allpos", "pos"} <= seen and n1 else UNDECIDED, "symex", 0, repr(sorted(seen)), kind="vacuity")
+    r.assumptions.append("the weight handed to add_solution for a non-positive fraction in a mix with non-positive fractions is not pinned (the code computes `intensive = 0` but passes the water-weighted value)")
     return r
 
 
@@ -213,6 +266,39 @@ def unit_totalize(twin=False):
     for pth in parts:
         n, good = blocks.get(pth, (0, 0))
         r.add("part[%s].contributes_its_totals_exactly_once_with_factor_1" % pth, DISCHARGED if n == 1 and good == 1 else FAILED, "ast-scan", 0, "add_extensive calls %d, from its own totals with factor 1: %d" % (n, good), kind="structure")
+    # H, O and charge of the solution: each stored under its own key from its own getter; parts other than the solution are brought
+    # up to date (their own totalize) before their totals are added
+    from props.common import text_of as _txt
+    for st in body:
+        if st.get("kind") != "IfStmt":
+            continue
+        mem = [x.get("name") for x in A.walk(st["inner"][0]) if x.get("kind") == "MemberExpr" and C10_strip(x["inner"][0]).get("kind") == "CXXThisExpr"]
+        if len(mem) != 1:
+            continue
+        stmts = st["inner"][1].get("inner", [])
+        if mem[0] == "solution":
+            last = None; pairs = set()
+            for x in stmts:
+                t = _txt(rel, x)
+                m_ = re.match(r'^Utilities::strcpy_safe\(token,MAX_LENGTH,"(\w+)"\);?$', t)
+                if m_:
+                    last = m_.group(1); continue
+                m2 = re.match(r'^this->totals\[token\]=this->solution->(Get_\w+)\(\);?$', t)
+                if m2:
+                    pairs.add((last, m2.group(1)))
+            want = {("O", "Get_total_o"), ("H", "Get_total_h"), ("Charge", "Get_cb")}
+            if twin:
+                want = {("O", "Get_total_h"), ("H", "Get_total_o"), ("Charge", "Get_cb")}
+            r.add("solution.H_O_and_charge_entered_under_their_own_keys", DISCHARGED if pairs == want else FAILED, "ast-scan", 0, repr(sorted(pairs)), kind="post")
+        elif mem[0] in parts:
+            names = []
+            for x in stmts:
+                for y in A.walk(x):
+                    if y.get("kind") == "CXXMemberCallExpr":
+                        nm = C10_strip(y["inner"][0]).get("name")
+                        if nm in ("totalize", "add_extensive"):
+                            names.append(nm)
+            r.add("part[%s].brought_up_to_date_before_it_is_added" % mem[0], DISCHARGED if names[:2] == ["totalize", "add_extensive"] else FAILED, "ast-scan", 0, repr(names), kind="structure")
     r.kind = "structural"
     return r
 
